@@ -37,6 +37,14 @@ var backends = []backend{
 	}},
 }
 
+// the same solvers on the abstract-arithmetic rendering of a query (see Ctx.Script)
+const absSuffix = "+uf-arith"
+
+var absBackends = []backend{
+	{backends[0].name + absSuffix, backends[0].args},
+	{backends[2].name + absSuffix, backends[2].args},
+}
+
 var workDir string
 var solverSem chan struct{}
 var fileSeq int
@@ -63,8 +71,23 @@ func Solve(name, script string, timeout time.Duration, all bool) SolveResult {
 	fileSeq++
 	file := filepath.Join(workDir, fmt.Sprintf("q%05d_%s.smt2", fileSeq, sanitizeFile(name)))
 	fileMu.Unlock()
+	absFile := ""
+	if k := strings.Index(script, absSeparator); k >= 0 {
+		absFile = strings.TrimSuffix(file, ".smt2") + "_abs.smt2"
+		if err := os.WriteFile(absFile, []byte(script[k+len(absSeparator):]), 0o644); err != nil {
+			return SolveResult{Status: "error", Output: err.Error()}
+		}
+		script = script[:k]
+		if !keepQueries {
+			defer os.Remove(absFile)
+		}
+	}
 	if err := os.WriteFile(file, []byte(script), 0o644); err != nil {
 		return SolveResult{Status: "error", Output: err.Error()}
+	}
+	bes := backends
+	if absFile != "" {
+		bes = append(append([]backend{}, backends...), absBackends...)
 	}
 	ctx, cancel := context.WithCancel(context.Background())
 	defer cancel()
@@ -74,8 +97,8 @@ func Solve(name, script string, timeout time.Duration, all bool) SolveResult {
 		out    string
 		ms     int64
 	}
-	ch := make(chan one, len(backends))
-	for _, be := range backends {
+	ch := make(chan one, len(bes))
+	for _, be := range bes {
 		be := be
 		go func() {
 			solverSem <- struct{}{}
@@ -85,6 +108,10 @@ func Solve(name, script string, timeout time.Duration, all bool) SolveResult {
 				return
 			}
 			args := be.args(file, timeout)
+			isAbs := strings.HasSuffix(be.name, absSuffix)
+			if isAbs {
+				args = be.args(absFile, timeout)
+			}
 			cctx, ccancel := context.WithTimeout(ctx, timeout+2*time.Second)
 			defer ccancel()
 			cmd := exec.CommandContext(cctx, args[0], args[1:]...)
@@ -97,6 +124,8 @@ func Solve(name, script string, timeout time.Duration, all bool) SolveResult {
 			out := buf.String()
 			st := firstLine(out)
 			switch {
+			case isAbs && st == "sat":
+				st = "unknown" // a model of the abstraction is not a model of the query
 			case st == "unsat" || st == "sat":
 			case st == "unknown":
 			case strings.Contains(st, "timeout") || cctx.Err() != nil:
@@ -114,7 +143,7 @@ func Solve(name, script string, timeout time.Duration, all bool) SolveResult {
 	res := SolveResult{Status: "unknown", All: map[string]string{}}
 	var firstDef *one
 	worst := ""
-	for i := 0; i < len(backends); i++ {
+	for i := 0; i < len(bes); i++ {
 		o := <-ch
 		res.All[o.be] = o.status
 		if o.status == "unsat" || o.status == "sat" {
